@@ -255,8 +255,8 @@ func c09Gen(r *kit.Run) (*c09Scenario, *c09Store) {
 		a.Rule = g.Choose(6) == 0
 		sc.Acts = append(sc.Acts, a)
 	}
-	if g.Choose(5) == 0 {
-		sc.Cancel = 5 + g.Choose(400)
+	if g.Choose(3) == 0 {
+		sc.Cancel = 3 + g.Choose(120)
 	}
 	return sc, st
 }
@@ -683,8 +683,7 @@ func c09ExecInQuery(r *kit.Run, sc *c09Scenario, st *c09Store) {
 		case "retractall":
 			t = fmt.Sprintf("retractall(d%d(%s, _))", a.Pred, k)
 		case "abolish":
-			t = fmt.Sprintf("(abolish(d%d/2) ; true)", a.Pred)
-			t = fmt.Sprintf("catch(abolish(d%d/2), _, true)", a.Pred)
+			t = fmt.Sprintf("abolish(d%d/2)", a.Pred) // (no catch/3 here: this check must not depend on C04)
 		case "bad":
 			t = fmt.Sprintf("assertz((d%d(1, %s) :- 1))", a.Pred, a.S)
 		}
@@ -765,10 +764,12 @@ func c09ExecInQuery(r *kit.Run, sc *c09Scenario, st *c09Store) {
 			st.preds[a.Pred] = keep
 			return note()
 		case "abolish":
-			if !st.gone[a.Pred] {
-				st.preds[a.Pred] = nil
-				st.gone[a.Pred] = true
+			if st.gone[a.Pred] {
+				aborted = "error(" // abolishing a procedure that does not exist raises (which error is not asserted)
+				return false
 			}
+			st.preds[a.Pred] = nil
+			st.gone[a.Pred] = true
 			return note()
 		case "bad":
 			aborted = "error(type_error(callable"
@@ -901,8 +902,14 @@ func c09ExecInQuery(r *kit.Run, sc *c09Scenario, st *c09Store) {
 				ok = true
 			}
 		}
-		if !ok && strings.HasPrefix(gen.Kind, "retract") {
-			ok = false
+		if !ok && n >= 1 && n < len(events) && strings.HasPrefix(events[n].text, "a(") {
+			// retractall/1 removes its matches one by one: a cancel may land in the middle of it
+			var j int
+			fmt.Sscanf(events[n].text, "a(%d)", &j)
+			if sc.Acts[j].Act == "retractall" {
+				ok = c09Between(events[n-1].db, db, events[n].db)
+				r.Probe("cancel-inside-retractall")
+			}
 		}
 		if !ok {
 			r.Fail("db-mismatch", "db-after-cancel:"+gen.Kind, "the loop was cancelled after %d reported steps; database\n  %s\nis neither of the model's states %v\n  query: %s", n, db, states, sc.Query)
@@ -947,4 +954,40 @@ func initialDump(sc *c09Scenario) string {
 		st.assert(p, false, f[0], f[1], false)
 	}
 	return st.dump()
+}
+
+// c09Between reports whether every predicate's clause list in db lies between after and before as subsequences
+// (before >= db >= after), which is what a partly executed retractall/1 leaves.
+func c09Between(before, db, after string) bool {
+	parse := func(s string) [][]string {
+		var out [][]string
+		for _, f := range strings.Fields(s) {
+			l := f[strings.IndexByte(f, '[')+1 : len(f)-1]
+			if l == "" {
+				out = append(out, nil)
+			} else {
+				out = append(out, strings.Split(l, ","))
+			}
+		}
+		return out
+	}
+	sub := func(a, b []string) bool { // a is a subsequence of b
+		i := 0
+		for _, x := range b {
+			if i < len(a) && a[i] == x {
+				i++
+			}
+		}
+		return i == len(a)
+	}
+	b, d, a := parse(before), parse(db), parse(after)
+	if len(b) != len(d) || len(a) != len(d) {
+		return false
+	}
+	for i := range d {
+		if !sub(a[i], d[i]) || !sub(d[i], b[i]) {
+			return false
+		}
+	}
+	return true
 }
